@@ -5,7 +5,7 @@ use crate::keyring::{EncodedSk, Keyring};
 
 use std::convert::TryInto;
 use std::ffi::OsStr;
-use std::fs::File;
+use std::fs::{File, OpenOptions};
 use std::io::{Read, Write};
 use std::ops::Deref;
 use std::path::{Path, PathBuf};
@@ -314,7 +314,13 @@ pub(crate) fn gen_key(outfile: Option<String>, env_pass: bool) -> Result<(), any
     };
 
     let is_text = true;
-    let mut keyring = open_output(outfile.as_deref(), is_text)?;
+    let mut keyring: Box<dyn Write> = match outfile.as_deref() {
+        // Append to an existing keyring so that the keys already in it are kept.
+        Some(path) if Path::new(path).exists() => {
+            Box::new(OpenOptions::new().append(true).open(path)?)
+        }
+        _ => open_output(outfile.as_deref(), is_text)?,
+    };
     keyring.write_all(key_output.as_bytes())?;
     keyring.flush()?;
 
